@@ -33,7 +33,9 @@ CONSTANTS L,          \* payload size limit of the model
           Consumed,   \* bytes of the unit's own header that fragments do not repeat
           SingleLE,   \* TRUE: single packet when size <= L (H264); FALSE: size < L (H265)
           MaxUnits,
-          SizeSet     \* unit sizes explored
+          SizeSet,    \* unit sizes explored
+          LaterBatch  \* TRUE: a third unit is explored only after <<L-1, small>> - the first unit is
+                      \* flushed alone and the second and third meet every threshold of a LATER batch
 
 VARIABLES units,      \* the frame: sequence of unit sizes
           beh
@@ -78,6 +80,7 @@ AB(sz) == LET a == (sz + 8) \div L IN [a |-> a, b |-> sz - a * L]
 
 AddUnit ==
   /\ Len(units) < MaxUnits
+  /\ (LaterBatch /\ Len(units) = 2) => (units[1] = L - 1 /\ units[2] \in 2..8)
   /\ \E sz \in SizeSet :
        /\ units' = Append(units, sz)
        /\ beh' = ToJson([units |-> [i \in 1..Len(units') |-> AB(units'[i])],
@@ -87,6 +90,7 @@ Spec == Init /\ [][Next]_vars
 
 \* size sets for the configurations
 SizesAll == (2..8) \cup (12..28) \cup (32..48)
+SizesAll265 == (3..8) \cup (12..28) \cup (32..48)
 SizesEdge == {2, 3, 8, 12, 15, 16, 17, 18, 19, 20, 21, 22, 23, 28, 32, 37, 38, 39, 40, 41, 42, 48}
 
 \* ---- what TLC checks on the model --------------------------------------------
